@@ -57,7 +57,9 @@ type IndexedState struct {
 	// Loaded indicates whether we have loaded data from Store.
 	Loaded bool
 
+	cacheLock   sync.Mutex
 	cachedRules map[string]*Rule
+	cacheGen    uint64
 
 	addHook AddHookFn
 
@@ -81,6 +83,59 @@ func (s *IndexedState) withPrivilege(ctx *Context) *Context {
 
 func (s *IndexedState) withoutPrivilege(hctx *Context) {
 	hctx.revokePrivilege()
+}
+
+// The parsed rules ('cachedRules') have a lock of their own,
+// 'cacheLock': events look at them and fill them in after they have
+// let go of the state's lock ('FindCachedRules').  Nothing else is
+// locked while 'cacheLock' is held.
+//
+// 'cacheGen' counts the invalidations.  An event notes it before it
+// reads the rules from the state and caches what it parsed only if
+// nothing was invalidated since; otherwise an event that overlaps the
+// replacement of a rule would cache the replaced rule for good.  For
+// that, the invalidation happens with the state's lock held, where
+// the facts change.
+
+// uncache forgets the parsed rule with the given id.
+func (s *IndexedState) uncache(id string) {
+	s.cacheLock.Lock()
+	defer s.cacheLock.Unlock()
+	delete(s.cachedRules, id)
+	s.cacheGen++
+}
+
+// uncacheAll forgets all parsed rules.
+func (s *IndexedState) uncacheAll() {
+	s.cacheLock.Lock()
+	defer s.cacheLock.Unlock()
+	s.cachedRules = make(map[string]*Rule)
+	s.cacheGen++
+}
+
+// cacheGeneration returns the number of invalidations so far.
+func (s *IndexedState) cacheGeneration() uint64 {
+	s.cacheLock.Lock()
+	defer s.cacheLock.Unlock()
+	return s.cacheGen
+}
+
+// cached returns the parsed rule with the given id, if any.
+func (s *IndexedState) cached(id string) (*Rule, bool) {
+	s.cacheLock.Lock()
+	defer s.cacheLock.Unlock()
+	rule, have := s.cachedRules[id]
+	return rule, have
+}
+
+// cache remembers the parsed rule unless something was invalidated
+// since the given generation.
+func (s *IndexedState) cache(id string, rule *Rule, gen uint64) {
+	s.cacheLock.Lock()
+	defer s.cacheLock.Unlock()
+	if s.cacheGen == gen {
+		s.cachedRules[id] = rule
+	}
 }
 
 func (s *IndexedState) slock(ctx *Context, read bool) {
@@ -294,7 +349,6 @@ func (s *IndexedState) Add(ctx *Context, id string, x Map) (string, error) {
 	// so that memory and storage change together.
 	s.slock(ctx, false)
 	defer s.sunlock(ctx, false)
-	delete(s.cachedRules, id)
 	id, fact, err := s.add(ctx, id, x)
 
 	if nil != err {
@@ -403,6 +457,10 @@ func (s *IndexedState) add(ctx *Context, id string, x Map) (string, map[string]i
 	}
 
 	s.IdToFact[id] = fact
+	// Here, where the fact changes, and under the id it has now,
+	// which needn't be the given one (a property's is made from
+	// the fact).
+	s.uncache(id)
 
 	elapsed := time.Now().Sub(then).Nanoseconds()
 	Log(DEBUG, ctx, "IndexedState.add", "state", s.Name, "id", id, "elapsed", elapsed)
@@ -508,7 +566,7 @@ func (s *IndexedState) Rem(ctx *Context, id string) (bool, error) {
 
 func (s *IndexedState) rem(ctx *Context, id string) (bool, error) {
 	Log(DEBUG, ctx, "IndexedState.rem", "name", s.Name, "id", id)
-	delete(s.cachedRules, id)
+	s.uncache(id)
 
 	// Currently we don't return an error if the fact isn't found.
 	// ToDo: Reconsider.  For example, maybe have an additional
@@ -608,7 +666,7 @@ func (s *IndexedState) Clear(ctx *Context) error {
 	s.slock(ctx, false)
 	defer s.sunlock(ctx, false)
 
-	s.cachedRules = make(map[string]*Rule)
+	s.uncacheAll()
 	if err := s.remHooks(ctx); err != nil {
 		return err
 	}
@@ -626,7 +684,7 @@ func (s *IndexedState) Delete(ctx *Context) error {
 	s.slock(ctx, false)
 	defer s.sunlock(ctx, false)
 
-	s.cachedRules = make(map[string]*Rule)
+	s.uncacheAll()
 	if err := s.remHooks(ctx); err != nil {
 		return err
 	}
@@ -857,6 +915,7 @@ func (s *IndexedState) FindCachedRules(ctx *Context, event Map) (map[string]*Rul
 	timer := NewTimer(ctx, "IndexedState.FindCachedRules")
 	defer timer.Stop()
 
+	gen := s.cacheGeneration()
 	rules, err := s.doFindRules(ctx, event)
 	if err != nil {
 		return nil, err
@@ -864,8 +923,8 @@ func (s *IndexedState) FindCachedRules(ctx *Context, event Map) (map[string]*Rul
 
 	acc := make(map[string]*Rule)
 	for id, r := range rules {
-		if _, isCached := s.cachedRules[id]; isCached {
-			acc[id] = s.cachedRules[id]
+		if rule, isCached := s.cached(id); isCached {
+			acc[id] = rule
 		} else {
 			rule, err := RuleFromMap(ctx, r)
 			if err != nil {
@@ -881,7 +940,7 @@ func (s *IndexedState) FindCachedRules(ctx *Context, event Map) (map[string]*Rul
 			// so it gets its id before anybody else can see it.
 			rule.Id = id
 			acc[id] = rule
-			s.cachedRules[id] = rule
+			s.cache(id, rule, gen)
 		}
 	}
 	return acc, nil
